@@ -83,7 +83,13 @@ fn stress_lexicon(rng: &mut Rng, lex: &mut Lexicon, nid: i64, size_class: u64) {
 }
 
 pub fn run(ctx: &Ctx, rep: &mut Report) {
-    let n_worlds = ctx.n(320, 12000);
+    let small = matches!(ctx.stage.as_str(), "valgrind" | "miri");
+    let n_worlds = match ctx.stage.as_str() {
+        "miri" => ctx.nshards,
+        "valgrind" => ctx.nshards * 3,
+        "asan" => ctx.n(160, 1600),
+        _ => ctx.n(320, 12000),
+    };
     for wi in ctx.indices(n_worlds) {
         if ctx.out_of_time() {
             rep.notes.push(format!("stopped at world {} (time budget)", wi));
@@ -96,6 +102,7 @@ pub fn run(ctx: &Ctx, rep: &mut Report) {
         let mut sys = dictgen::gen_system(&mut rng, &dopts, &matrix);
         // size classes: most worlds small, some with hundreds / thousands of keys, a few huge ones (thorough)
         let size_class = match wi % 40 {
+            _ if small => (wi % 2) as u64,
             0 if !ctx.quick() => 3,
             1 | 2 => 2,
             x if x % 4 == 3 => 1,
@@ -103,8 +110,8 @@ pub fn run(ctx: &Ctx, rep: &mut Report) {
         };
         stress_lexicon(&mut rng, &mut sys, matrix.nid() as i64, size_class);
         let mut popts = PluginOpts::none();
-        popts.n_users = *rng.pick(&[0usize, 0, 1, 2, 3, 7, 14]);
-        let world = match guard(|| build_world_from(&mut rng, &dopts, matrix, sys, popts, if wi % 3 == 0 { Place::Offset(1) } else { Place::Owned })) {
+        popts.n_users = if small { rng.below(3) } else { *rng.pick(&[0usize, 0, 1, 2, 3, 7, 14]) };
+        let world = match guard(|| build_world_from(&mut rng, &dopts, matrix, sys, popts, if wi % 3 == 0 || small { Place::Offset(1) } else { Place::Owned })) {
             Ok(Ok(w)) => w,
             Ok(Err(e)) => {
                 rep.count("worlds_rejected", 1);
@@ -123,7 +130,7 @@ pub fn run(ctx: &Ctx, rep: &mut Report) {
         let keys = world.keys();
         let lex = world.dict.lexicon();
         let oob_before = sudachi::verif::counters();
-        let n_texts = if size_class >= 2 { 60 } else { 20 };
+        let n_texts = if ctx.stage == "miri" { 4 } else if size_class >= 2 { 60 } else { 20 };
         for ti in 0..n_texts {
             let text = match rng.below(5) {
                 0 => rng.pick(&keys).clone(),
